@@ -412,7 +412,15 @@ func c11Exec(c *core.Ctx) {
 							_ = PayloadRead(pl)
 						}
 					}
-					switch r.IntN(6) {
+					switch r.IntN(7) {
+					case 6: // work that resolves from another goroutine as it returns
+						if o := <-e.CallWithOptions(bigbuff.ExclusiveKey(key), bigbuff.ExclusiveWork(func(resolve func(interface{}, error)) {
+							pl := &Payload{}
+							PayloadWrite(pl, j)
+							go resolve(pl, nil)
+						})); o != nil {
+							read(o.Result)
+						}
 					case 0:
 						v, _ := e.Call(key, fn)
 						read(v)
